@@ -230,7 +230,19 @@ func (c *Ctx) failureExits(fn *ssa.Function, l *natLoop, call ssa.CallInstructio
 				}
 			case isNumeric(res.Type()):
 				// count result compared with 0
-				if cmp, ok := ifi.Cond.(*ssa.BinOp); ok && ir.StripConv(cmp.X) == res {
+				// ... directly, or as the value the loop variable takes on the way round
+				// (for n, _ := f.Read(b); n != 0; n, _ = f.Read(b))
+				viaPhi := false
+				if cmp, ok := ifi.Cond.(*ssa.BinOp); ok {
+					if ph, isPhi := ir.StripConv(cmp.X).(*ssa.Phi); isPhi {
+						for _, ed := range ph.Edges {
+							if ir.StripConv(ed) == res {
+								viaPhi = true
+							}
+						}
+					}
+				}
+				if cmp, ok := ifi.Cond.(*ssa.BinOp); ok && (ir.StripConv(cmp.X) == res || viaPhi) {
 					if k, isK := ir.ConstInt(cmp.Y); isK && k == 0 {
 						switch cmp.Op {
 						case token.EQL, token.LEQ:
